@@ -23,6 +23,11 @@ type Input struct {
 	// a pure function of (TailSeed, step index). Zero = the running task keeps running.
 	TailSeed uint64 `json:"tailSeed,omitempty"`
 	TailPct  int    `json:"tailPct,omitempty"`
+	// PCT: instead, priority scheduling after the explicit Choices (Sched.pctPick): fixed random
+	// task priorities from PCTSeed, PCTDepth-1 demotion points among the first PCTSpan decisions.
+	PCTSeed  uint64 `json:"pctSeed,omitempty"`
+	PCTDepth int    `json:"pctDepth,omitempty"`
+	PCTSpan  int    `json:"pctSpan,omitempty"`
 }
 
 type Config struct {
